@@ -524,6 +524,7 @@ impl E1 {
             let dir = scratch_gql(i, self.crate_of(i), false);
             match crate::e3::cli_generate(&dir, &format!("schema.{}", c.schema_ext), "query.graphql", &crate::e3::flags_for(&c.opts), true) {
                 Ok(()) => {}
+                Err(e) if e.starts_with("timeout:") => return Err(format!("CLI delivery: {} (inconclusive)", e)),
                 Err(e) => results[i].gen_error = Some(e),
             }
         }
